@@ -142,6 +142,8 @@ func (e *c16Env) handleProxy(w http.ResponseWriter, r *http.Request) {
 		w.Write(c16PollBody(s.offer, "ws://bad host/"))
 	case 'r':
 		w.Write(c16PollBody(s.offer, "ws://relay.example.net/"))
+	case 'R': // allowed hostname, but a non-TLS scheme while AllowNonTLSRelay is off for this session
+		w.Write(c16PollBody(s.offer, e.relayURL(idx)))
 	case 'p':
 		w.Write(c16PollBody(`{"type":"offer","sdp":"garbage"}`, e.relayURL(idx)))
 	case 'q':
@@ -314,11 +316,11 @@ func (e *c16Env) op(o string) string {
 		c16WaitChange(before, chl)
 		return e.result(true)
 	}
-	if len(o) != 1 || strings.IndexByte("ejsxkunbrpagmtoqA+", kind) < 0 {
+	if len(o) != 1 || strings.IndexByte("ejsxkunbrRpagmtoqA+", kind) < 0 {
 		return "!badop"
 	}
 	s := &c16Sess{kind: kind, relayConn: make(chan struct{})}
-	if strings.IndexByte("brqagmtoA", kind) >= 0 {
+	if strings.IndexByte("brRqagmtoA", kind) >= 0 {
 		pc, offer, err := c16NewClient()
 		if err != nil {
 			return "!client " + err.Error()
@@ -340,6 +342,11 @@ func (e *c16Env) op(o string) string {
 	limit := 3 * time.Second
 	if kind == 't' || kind == 'n' {
 		limit += dataChannelTimeout
+	}
+	if kind == 'R' {
+		// sessions run one at a time in this mode; later sessions use the non-TLS test relay again
+		e.sf.AllowNonTLSRelay = false
+		defer func() { e.sf.AllowNonTLSRelay = true }()
 	}
 	if !c16GuardFor(limit, func() { e.sf.runSession(genSessionID()) }) {
 		return "!blocked-session " + e.result(true)
